@@ -207,6 +207,26 @@ def large_trace(n, p, npub=3):
     return tr
 
 
+def sized_trace(spec, p):
+    """int n: large_trace(n); "pub<N>": a run with N public values (interleaved with N // 3 private ones, values across
+    the field) and a handful of constraints over the first, a middle and the last of them - counts around 255 / 256 / 65535
+    are where one-byte and two-byte length fields of an encoder would overflow"""
+    if isinstance(spec, int):
+        return large_trace(spec, p)
+    n = int(spec[3:])
+    tr = []
+    nv = 0
+    for k in range(n):
+        tr.append(["pub", (k * 31 + 7) % 1009 if k % 5 else p - 1 - k])
+        nv += 1
+        if k % 3 == 0:
+            tr.append(["priv", -(k + 2)])
+            nv += 1
+    for i, j, k in ((0, nv // 2, nv - 1), (nv - 1, 0, 1), (nv // 3, nv - 2, nv // 2)):
+        tr.append(["con", ["add", ["var", i], ["one"]], ["sub", ["var", j], ["mul", ["var", k], 3]], ["mul", ["var", k], p - 2]])
+    return tr
+
+
 # ---------------------------------------------------------------------------
 # hypothesis strategies for traces
 
